@@ -1,3 +1,5 @@
 import Proofs.Lemmas.Checksum
 import Proofs.Props.Tables
 import Proofs.Props.C12
+import Proofs.Props.C19
+import Proofs.Props.C14
